@@ -267,7 +267,16 @@ func InjectFault(r *vh.Rand, env *Env, root *J) (*J, *Fault) {
 		case "invalid timestamp":
 			n.Replace(keep(Str(vh.Pick(r, []string{"2020-13-01T00:00:00Z", "2020-02-30T00:00:00Z", "2020-01-01T25:00:00Z", "2020-01-01T00:61:00Z", "2020-01-01", "yesterday", "", "2020-01-01T00:00:00", "1577836800", "2020-01-01T00:00:00+25:00"}))))
 		case "unknown enum name":
-			n.Replace(keep(Str(vh.Pick(r, []string{"NOPE", "", "value1", "ENUM_", "MODE_", "UNSPECIFIED_X", "0", "1"}))))
+			// names that look like options but are not in the schema: the dropped zero option of a no_default enum,
+			// with and without the prefix (for other enums the reader sees a valid name and the case is not judged)
+			names := []string{"NOPE", "", "value1", "ENUM_", "MODE_", "UNSPECIFIED_X", "0", "1", "UNSPECIFIED", "unspecified"}
+			if es := env.Lookup(j.Ty.Ref); es != nil {
+				names = append(names, es.Prefix+"UNSPECIFIED", es.Prefix+"UNSPECIFIED", es.Prefix, es.Prefix+es.Prefix)
+				for _, o := range es.Options {
+					names = append(names, strings.ToLower(o.Name), es.Prefix+es.Prefix+o.Name, o.Name+" ")
+				}
+			}
+			n.Replace(keep(Str(vh.Pick(r, names))))
 		case "unknown key":
 			key := vh.Pick(r, []string{"unknown", "s_string", "", "SString", "x.y", "!other"})
 			if j.Schema.Class == "oneof" && len(j.Members) > 0 {
